@@ -1218,6 +1218,200 @@ def _work_h(task):
 
 
 # ---------------------------------------------------------------------------
+# (h2) every small parameter declarator whose innermost position is the
+#      typedef name T - is T the parameter's name or a typedef name?
+# ---------------------------------------------------------------------------
+# A shape is a sequence of operations applied inside-out to the innermost token
+# X (X = T, or the ordinary identifier x):
+#   ptr    * D        ptrc   * const D        paren  ( D )
+#   [3] / (void) / (int)   D suffix   - only on a direct declarator (otherwise
+#                                       the suffix would belong to the inner
+#                                       direct declarator: a different shape)
+# Reading "X is the declared name" (6.7.6p1 declarator grammar): the derivation
+# sequence is the non-paren operations in order.
+# Reading "X is a typedef name": in an abstract-declarator the only place a
+# typedef name can stand is the start of a parameter-type-list, i.e. directly
+# after a '(' (6.7.7 abstract-declarator / 6.7.6 parameter-type-list); nothing
+# but suffixes can follow it inside that group, they form the abstract
+# declarator of that inner parameter.  So the reading exists iff the first
+# non-suffix operation is `paren`; the group is then a function suffix on an
+# empty direct-abstract-declarator and the remaining operations apply to that
+# function type.  C11 6.7.6.3p11: where both readings exist in a *parameter
+# declaration*, the typedef-name reading is taken.  After `int` a second type
+# specifier is impossible (6.7.2p2), after `*`/qualifiers the grammar has no
+# place for one - there X can only be the name.  Outside parameter declarations
+# a declarator is required, so X is always the (re)declared name.
+# Both readings are audited with gcc (see _audit_h2).
+H2_OPS = ("ptr", "ptrc", "paren", "[3]", "(void)", "(int)")
+_H2_SFX = {"[3]": (["[", "3", "]"], Arr("N")), "(void)": (["(", "void", ")"], Fn("void")),
+           "(int)": (["(", "int", ")"], Fn("int"))}
+_H2_PTR = {"ptr": (["*"], Ptr()), "ptrc": (["*", "const"], Ptr("const"))}
+
+
+def h2_tokens(core_tok, ops):
+    toks = [core_tok]
+    direct = True
+    for op in ops:
+        if op in _H2_PTR:
+            toks = _H2_PTR[op][0] + toks
+            direct = False
+        elif op == "paren":
+            toks = ["("] + toks + [")"]
+            direct = True
+        else:
+            if not direct:
+                return None
+            toks = toks + _H2_SFX[op][0]
+    return toks
+
+
+def _h2_sym(op):
+    return _H2_PTR[op][1] if op in _H2_PTR else _H2_SFX[op][1]
+
+
+def h2_readings(ops, tname_spec=dm.S_T):
+    """(sequence if X is the name, sequence if X is a typedef name | None)."""
+    named = tuple(_h2_sym(op) for op in ops if op != "paren")
+    i = 0
+    while i < len(ops) and ops[i] in _H2_SFX:
+        i += 1
+    alt = None
+    if i < len(ops) and ops[i] == "paren":
+        inner = Entity(None, tuple(_h2_sym(op) for op in ops[:i]), tuple(tname_spec))
+        alt = (("fn", ((inner,), False, None)),) + tuple(_h2_sym(op) for op in ops[i + 1:] if op != "paren")
+    return named, alt
+
+
+def h2_shapes(maxops):
+    out = []
+    for n in range(0, maxops + 1):
+        for ops in itertools.product(H2_OPS, repeat=n):
+            if h2_tokens("T", ops) is None:
+                continue
+            named, alt = h2_readings(ops)
+            if not dm.valid_seq(named):
+                continue
+            if alt is not None:
+                inner = dm.fn_info(alt[0]).params[0]
+                if not dm.valid_seq(alt) or not dm.valid_seq(inner.seq):
+                    continue   # the typedef reading is grammatical but no C type: not a valid program
+            out.append(ops)
+    return out
+
+
+H2_BASES = [dm.S_INT, S_STRUCT]
+H2_PLACES = ("param", "param-first", "param-last", "block", "for", "member")
+
+
+def _h2_case(place, ops, core_tok, bi):
+    """(text, expected FileAST, reading)"""
+    base = H2_BASES[bi]
+    named, alt = h2_readings(ops)
+    shape = h2_tokens(core_tok, ops)
+    if place.startswith("param"):
+        if core_tok == "T" and alt is not None:
+            ent, reading = Entity(None, alt, base), "typedef-name"
+        else:
+            ent, reading = Entity(core_tok, named, base), "name"
+        a = Entity("a", (), dm.S_INT)
+        ents = {"param": [ent], "param-first": [ent, a], "param-last": [a, ent]}[place]
+        toks = list(dm.PREFIX_T) + ["void", "g", "("]
+        for k, e in enumerate(ents):
+            toks += ([","] if k else []) + (dm.render_spec(base) + shape if e is ent else dm.render_entity(e))
+        toks += [")", ";"]
+        g = dm._simple_decl("g", ["void"], lambda td: dm.N(
+            "FuncDecl", args=dm.N("ParamList", params=[dm.expect_param(e) for e in ents]), type=td))
+        return dm.text(toks), dm.N("FileAST", ext=dm._prefix_T_ast() + [g]), reading
+    toks, _ = dm.place(place, Decln(base, (Dtor("@@", (), None, None),)), with_T=True)
+    k = toks.index("@@")
+    toks = toks[:k] + shape + toks[k + 1:]
+    _, exp = dm.place(place, Decln(base, (Dtor(core_tok, named, None, None),)), with_T=True)
+    return dm.text(toks), exp, "name"
+
+
+def _work_h2(task):
+    place, shapes = task
+    A = Acc()
+    for ops in shapes:
+        A.states += 1
+        A.trans += len(ops)
+        for core_tok in ("T", "x"):
+            for bi in range(len(H2_BASES)):
+                text, exp, reading = _h2_case(place, ops, core_tok, bi)
+                what = ("typedef-name" if core_tok == "T" else "identifier") + "-innermost"
+                ctx = "param" if place.startswith("param") else place
+                A.case(text, exp, lambda r: f"h2:{ctx}:{what}:should-read-as-{reading}:{r[0]}",
+                       {"family": "h2", "place": place, "ops": list(ops)})
+    return A.out()
+
+
+def _audit_h2(R, shapes, tmp):
+    """gcc decides both readings: `void f(int SHAPE);` must be compatible with
+    the function type built one derivation per typedef for the reading the
+    model expects, and (where the other reading exists) must NOT be compatible
+    with the other one.  T is `char` here so that the readings differ in type."""
+    lines = ["typedef char T;", "struct S { int m; };"]
+    want = {}
+    n = 0
+
+    def chain(seq, spec, stem):
+        # parameter type through one-step typedefs (the inner parameter of the
+        # typedef-name reading gets its own chain first)
+        if seq and seq[0][0] == "fn" and not isinstance(seq[0][1], str):
+            inner = dm.fn_info(seq[0]).params[0]
+            l0, q = dm.typedef_chain(inner.spec, inner.seq, stem + "q")
+            lines.extend(l0)
+            seq = (("fn", ((Entity(None, (), (("tname", q),)),), False, None)),) + tuple(seq[1:])
+        l1, p = dm.typedef_chain(spec, seq, stem)
+        lines.extend(l1)
+        lines.append(f"typedef void {stem}_F({p});")
+        return f"{stem}_F"
+
+    for si, ops in enumerate(shapes):
+        for core_tok in ("T", "x"):
+            for bi, base in enumerate(H2_BASES):
+                named, alt = h2_readings(ops)
+                i = n
+                n += 1
+                lines.append(f"void f{i}({dm.text(dm.render_spec(base) + h2_tokens(core_tok, ops))});")
+                is_td = core_tok == "T" and alt is not None
+                good = chain(alt if is_td else named, base, f"G{i}")
+                lines.append(f"_Static_assert(__builtin_types_compatible_p(__typeof__(f{i}), {good}), \"#{i}#pos\");")
+                want[i] = (ops, core_tok, bi)
+                if core_tok == "T" and alt is not None:
+                    bad = chain(named, base, f"N{i}")
+                    lines.append(f"_Static_assert(!__builtin_types_compatible_p(__typeof__(f{i}), {bad}), \"#{i}#neg\");")
+    # liveness control: `int *(T)` asserted to be the *name* reading must be refuted
+    c_named, _c_alt = h2_readings(("paren", "ptr"))
+    lines.append(f"void fctl({dm.text(['int'] + h2_tokens('T', ('paren', 'ptr')))});")
+    bad = chain(c_named, dm.S_INT, "CTL")
+    lines.append(f"_Static_assert(__builtin_types_compatible_p(__typeof__(fctl), {bad}), \"#ctl#\");")
+    path = os.path.join(tmp, "h2.c")
+    with open(path, "w") as f:
+        f.write("\n".join(lines) + "\n")
+    p = subprocess.run(["gcc", "-std=c11", "-fsyntax-only", "-w", "-fmax-errors=0", path],
+                       capture_output=True, text=True)
+    errs = [ln for ln in p.stderr.splitlines() if "error:" in ln]
+    if not any("#ctl#" in ln for ln in errs):
+        R.fail("audit:h2:dead", {"stderr": p.stderr[:300]}, "gcc did not refute the deliberately wrong control")
+    any_err = bool(errs)
+    errs = [ln for ln in errs if "#ctl#" not in ln]
+    for ln in errs:
+        m = re.search(r"static assertion failed: \"#(\d+)#(pos|neg)\"", ln)
+        if m:
+            ops, core_tok, bi = want[int(m.group(1))]
+            R.fail("audit:h2:gcc-reads-the-parameter-differently",
+                   {"ops": list(ops), "innermost": core_tok, "base": bi, "which": m.group(2),
+                    "c": f"void f({dm.text(dm.render_spec(H2_BASES[bi]) + h2_tokens(core_tok, ops))});"},
+                   "gcc disagrees with the model's reading of 6.7.6.3p11")
+        else:
+            R.fail("audit:h2:gcc-rejects", {"error": ln[:200]}, ln[:200])
+    if p.returncode != 0 and not any_err:
+        R.fail("audit:h2:gcc-failed", {"stderr": p.stderr[:300]}, "gcc failed")
+    return n
+
+
+# ---------------------------------------------------------------------------
 # run
 # ---------------------------------------------------------------------------
 def run(tier):
@@ -1236,6 +1430,7 @@ def run(tier):
         g_derived_multi="pairs of sequences <=1 and triples over 4 sequences x 7 derived type names x 3 bases" if quick
         else "pairs and triples of sequences <=1 x 7 derived type names x 3 bases; pairs of sequences <=2 x 3 type names",
         h_len=2 if quick else 3,
+        h2_ops=5 if quick else 6,
         audit_len=3 if quick else 4,
     )
 
@@ -1354,6 +1549,20 @@ def run(tier):
     # (h)
     for res in core.pmap(_work_h, [(ctx, B["h_len"]) for ctx in H_CTX], chunksize=1):
         T.merge("h", res)
+    shapes = h2_shapes(B["h2_ops"])
+    tasks = [(pl, ch) for pl in H2_PLACES for ch in core.chunked(shapes, max(1, len(shapes) // 12))]
+    for res in core.pmap(_work_h2, tasks, chunksize=1):
+        T.merge("h", res)
+    tmp = tempfile.mkdtemp(prefix="c03h_")
+    try:
+        h2_audited = _audit_h2(R, shapes, tmp)
+    finally:
+        shutil.rmtree(tmp, ignore_errors=True)
+    n_td = sum(1 for o in shapes if h2_readings(o)[1] is not None)
+    R.set("h2", {"shapes": len(shapes), "shapes_where_T_is_a_typedef_name": n_td,
+                 "gcc_audited_parameter_declarations": h2_audited})
+    if n_td < 50 or len(shapes) - n_td < 50:
+        R.fail("vacuous:h2", {"shapes": len(shapes), "typedef_reading": n_td}, "too few shapes of one reading")
     lap("h")
 
     # ---- verdicts
